@@ -455,11 +455,26 @@ class ModelBasedSearcher(StochasticSearcher):
         )
         if self._restrict_configurations is not None:
             state["restrict_configurations"] = self._restrict_configurations
+        # PRNG used by the surrogate model(s) to draw fantasy samples
+        state["gpmodel_random_state"] = [
+            rs.get_state() for rs in self._gpmodel_random_states()
+        ]
         return state
+
+    def _gpmodel_random_states(self) -> List[np.random.RandomState]:
+        estimator = self.state_transformer.estimator
+        estimators = estimator.values() if isinstance(estimator, dict) else [estimator]
+        return [
+            est.gpmodel.random_state for est in estimators if hasattr(est, "gpmodel")
+        ]
 
     def _restore_from_state(self, state: Dict[str, Any]):
         super()._restore_from_state(state)
         self.state_transformer.set_params(state["model_params"])
+        for rs, rs_state in zip(
+            self._gpmodel_random_states(), state.get("gpmodel_random_state", [])
+        ):
+            rs.set_state(rs_state)
         self._restrict_configurations = state.get("restrict_configurations")
         # The internal random searcher is generated once needed, and it shares its
         # ``random_state`` with this searcher here
